@@ -61,7 +61,11 @@ theorem make_allW (cfg : Cfg) (h : cfg.makeTuple = true) (t : T) : allW (make cf
         simp only [List.mem_map] at hp
         obtain ⟨q, hq, rfl⟩ := hp
         exact ih q hq
-      cases k <;> simp [make, allW, h, hl]
+      cases k with
+      | tup =>
+          have h' : cfg.tupleMode ≠ .leave := by simpa [Cfg.makeTuple] using h
+          cases hm : cfg.tupleMode <;> simp_all [make, allW]
+      | _ => simp [make, allW, hl]
 
 /-- a value without tuples (ordinary JSON: dict / list / scalars) comes out fully wrapped, whatever `make` does to tuples -/
 theorem make_allW_of_tupFree (cfg : Cfg) (t : T) (ht : tupFree t = true) : allW (make cfg t) = true := by
